@@ -3,3 +3,7 @@ NEXT Next
 CONSTRAINT Mark
 POSTCONDITION Post
 CHECK_DEADLOCK FALSE
+INVARIANT ByteSizeIsHeld
+INVARIANT OccupancyBound
+INVARIANT CounterIdentity
+INVARIANT DepartureLaw
